@@ -405,7 +405,7 @@ def _job(job):
 
     st = explorer.explore(factory, case, bound, max_execs=20000, max_passes=3000, on_exec=on_exec)
     if st["truncated"]:
-        part.cap(f"execution cap hit for {name}")
+        part.cap(f"execution cap hit for {name} (complete up to bound {st['completed_bound']}, {st['executions']} executions reported)")
     part.sample({"case": name, "bound": bound, "executions": st["executions"]})
     return part
 
